@@ -92,7 +92,7 @@ def run(ctx, R, tier):
     R.rule("C14-R8", "the generic (in-memory) filter matches literally and case-sensitively", floor=1)
     R.rule("C14-R7", "a missing key raises KeyError on both back-ends", floor=1)
     R.rule("C14-R6", "removal counts: len() of the very list handed to remove_items; 1 only after the guarded delete", floor=3)
-    R.rule("C14-R10", "SqlStorage.__setitem__ writes the key and the uri it was given on every path (an overwrite does not keep the old uri)", floor=1)
+    R.rule("C14-R10", "SqlStorage.__setitem__ writes the key and the uri it was given on every path (an overwrite does not keep the old uri) and removes the old tags whatever the new ones are", floor=2)
     R.rule("C14-R11", "the command line client asks the question its command names: yplookup_all -> meta_all, yplookup_any -> meta_any", floor=2)
     R.rule("C14-R12", "the sqlite columns that hold names, uris and tags have TEXT affinity, so a value that looks like a number is stored as the text it is", floor=3)
 
@@ -392,8 +392,9 @@ def run(ctx, R, tier):
                 "back-end and raises TypeError on the other" % prm)
 
     # ---------------------------------------------------------------- R10
-    from .common import sql_setitem_writes_uri
+    from .common import sql_setitem_writes_uri, sql_setitem_replaces_metadata
     sql_setitem_writes_uri(ctx, R, "C14-R10")
+    sql_setitem_replaces_metadata(ctx, R, "C14-R10")
 
     # ---------------------------------------------------------------- R11
     for cmd, kw in (("cmd_yplookup_all", "meta_all"), ("cmd_yplookup_any", "meta_any")):
